@@ -102,6 +102,7 @@ class TreeCfg:
         self.p_concept_is_var = 0.08
         self.p_colonless = 0.0     # role text without leading colon (hand-assembled trees)
         self.exotic_symbols = 0.1
+        self.p_same_aln = 0.5      # a target alignment identical to the role alignment of the same branch
         self.p_forward = 0.3       # share of re-entrancies that may point forward
         self.p_pynum = 0.0         # numeric atoms as Python int/float objects (hand-assembled trees)
         self.__dict__.update(kw)
@@ -180,7 +181,8 @@ def random_tree(rng, cfg=None):
         width = rng.randint(0, cfg.max_width)
         for _ in range(width):
             rl, inv = role(rng)
-            rl_a = rl + maybe_aln(rng, cfg.p_aln)
+            r_aln = maybe_aln(rng, cfg.p_aln)
+            rl_a = rl + r_aln
             x = rng.random()
             if budget[0] > 1 and depth < cfg.max_depth and x < 0.45:
                 budget[0] -= 1
@@ -198,7 +200,7 @@ def random_tree(rng, cfg=None):
                     if key in used_triples:
                         continue
                     used_triples.add(key)
-                branches.append((rl_a, tgt + maybe_aln(rng, cfg.p_aln)))
+                branches.append((rl_a, tgt + (r_aln if r_aln and rng.random() < cfg.p_same_aln else maybe_aln(rng, cfg.p_aln))))
             elif x < 0.45 + cfg.p_reent + cfg.p_missing_target:
                 if cfg.wellformed:
                     key = (var, rl, None)
@@ -217,7 +219,8 @@ def random_tree(rng, cfg=None):
                     if key in used_triples:
                         continue
                     used_triples.add(key)
-                branches.append((rl_a, a if not isinstance(a, str) else a + (maybe_aln(rng, cfg.p_aln) if a else '')))
+                t_aln = r_aln if r_aln and rng.random() < cfg.p_same_aln else maybe_aln(rng, cfg.p_aln)
+                branches.append((rl_a, a if not isinstance(a, str) else a + (t_aln if a else '')))
         return (var, branches)
 
     node = build(allvars[0], 0)
